@@ -56,7 +56,12 @@ Definition next8 (b : str) : nxt :=
     else if b0 <? 240 then
       match r with
       | [] => Incomplete
-      | [b1] => if ok2_3 b0 b1 then Incomplete else Invalid
+      | [b1] =>
+        if ok2_3 b0 b1 then Incomplete
+        else if (b0 =? 237) && is_cont b1 then Incomplete   (* CPython: a truncated surrogate ED A0..BF at the end of
+                                                               non-final data is "incomplete"; it is rejected when
+                                                               the third byte arrives or at final *)
+        else Invalid
       | b1 :: b2 :: r' =>
         if ok2_3 b0 b1 then
           if is_cont b2 then Complete ((b0 - 224) * 4096 + (b1 - 128) * 64 + (b2 - 128)) r' else Invalid
@@ -320,3 +325,6 @@ Definition c_dec_trace (encoding : option str) (force : bool) :=
   dec_trace cdst cd_init cd_step (dec_init cdst encoding force).
 Definition c_enc_trace (encoding : option str) :=
   enc_trace cest ce_init ce_step (enc_init cest encoding).
+(* codecs.getwriter("css"): one result per write *)
+Definition c_sw_trace (encoding : option str) :=
+  enc_trace_nf cest ce_init ce_step (enc_init cest encoding).
